@@ -5,6 +5,7 @@ from vlib import gen
 from vlib.interp import run_bounded, StepLimit, describe
 from ansi_string import AnsiString, AnsiStr
 
+QUICK_SCALE = 1.0
 RULE = ('base texts (ASCII + non-ASCII incl. characters whose case mapping changes length, empty, whitespace-only) wrapped '
         'in a partly formatted AnsiString and AnsiStr x argument tuples per method: substrings drawn from the text, '
         'overlapping/multi-char/empty patterns, start/end in {None} U [-len-2, len+2], counts in {-1,0,1,2,5}, widths in '
